@@ -2,6 +2,7 @@ SPECIFICATION Spec
 CONSTANTS D = 4
           NPre = 2
           NE = 4
+          EMin = 1
           EMax = 2
           Dirs = {"ltr"}
           Caps = {1, 2, 3, 99}
